@@ -1,6 +1,8 @@
 //! nbharness — runs request lines (one per stdin line: `<stream> <op> <arg>*`) against the
 //! real num-bigint built from /repo's working tree and prints one canonical result line each.
 mod wire;
+mod c20;
+mod c02;
 mod c13;
 mod c12;
 mod c11;
@@ -39,6 +41,8 @@ fn handlers() -> Vec<(&'static str, Handler)> {
         ("C11", c11::handle as Handler),
         ("C12", c12::handle as Handler),
         ("C13", c13::handle as Handler),
+        ("C02", c02::handle as Handler),
+        ("C20", c20::handle as Handler),
     ]
 }
 
